@@ -36,8 +36,8 @@ type seg struct {
 	anchor string
 }
 
-func t(text string) seg           { return seg{text: text} }
-func a(text, anchor string) seg   { return seg{text: text, anchor: anchor} }
+func t(text string) seg         { return seg{text: text} }
+func a(text, anchor string) seg { return seg{text: text, anchor: anchor} }
 
 type writer struct {
 	id      string
